@@ -407,7 +407,7 @@ def lifecycle(rep, u, vals):
         # transfer into an io buffer (stream, file, datagram receiver): no registration call is reached with a bad window
         sched = {pos[0] for pos, root, c, ps in fx.calls() if (c.get("fn") or "").startswith(("tpt_ev_add", "tpt_ev_enable", "tpt_ev_q_", "tp_task_enable", "tp_task_restart", "tp_task_handler"))}
 
-        def reach_sched(handler, off, tr, size):
+        def reach_sched(handler, off, tr, size, buf_val=0x5000):
             fields = {"offset": off, "transfer_size": tr, "size": size}
             hv = {"tp_task_sr_handler": 0x111, "tp_task_rw_handler": 0x222, "tp_task_pkt_rcvr_handler": 0x333}
             seen, work = set(), [fx.entry]
@@ -429,8 +429,8 @@ def lifecycle(rep, u, vals):
                         elif core.is_ref(y) and y.get("n") in hv:
                             env[id(y)] = hv[y["n"]]
                         elif core.is_ref(y) and y.get("dk") == "parm" and (fx.unit.type(y["t"]) or {}).get("k") == "ptr" and "io_buf" in fx.unit.tstr(y["t"]):
-                            env[id(y)] = 0x5000
-                    if env:
+                            env[id(y)] = buf_val
+                    if env and not (buf_val == 0 and any(k_ in fields.values() and False for k_ in ())):
                         try:
                             v = r_mpt.eval_expr(c, env)
                             succ = [blk.succ[0] if v else blk.succ[1]]
@@ -438,6 +438,14 @@ def lifecycle(rep, u, vals):
                             pass
                 work.extend(succ)
             return bool(seen & sched)
+        # no buffer at all: the documented "notify only" mode of the two stream handlers (the callback attaches a buffer later);
+        # the datagram receiver has no such mode and would dereference it
+        for hnd, want in (("tp_task_sr_handler", True), ("tp_task_rw_handler", True), ("tp_task_pkt_rcvr_handler", False)):
+            got = reach_sched(hnd, 0, 0, 0, buf_val=0)
+            (rep.proved if got == want else rep.violated)(
+                "R-BOUND", fx, "null-buffer:%s" % hnd, "a task of %s started without a buffer is %s" % (hnd, "scheduled (notify-only mode)" if want else "refused"),
+                "" if got == want else ("refused with EINVAL although threadpool_task.h documents 'If buf is null then tp_task_cb() called every time'" if want else
+                                       "scheduled: the handler dereferences the NULL buffer"))
         for hnd in ("tp_task_sr_handler", "tp_task_rw_handler", "tp_task_pkt_rcvr_handler"):
             good = reach_sched(hnd, 4, 6, 10)
             bad_w = reach_sched(hnd, 4, 7, 10) or reach_sched(hnd, 16, 64, 32) or reach_sched(hnd, 11, 1, 10)
